@@ -372,38 +372,39 @@ class Gen:
         return {"kind": "alias", "attrs": self.item_attrs("alias", sc, annotated), "ident": name, "generics": gs, "ty": self.type(sc)}
 
     def const(self, name, scope, annotated=True):
+        """`init` is the literal when the initialiser is exactly one literal, else None"""
         ty = self.rng.choice([t_path("u32"), t_path("i32"), t_path("u8"), ("ref", t_path("str"), False), t_path("U53")])
         r = self.rng.random()
         if not self.chance("p_edge") or r < 0.3:
             v = self.rng.choice([0, 1, 42, 255, 1000000])
             suffix = self.rng.choice(["", "", "u32", "_u8"]) if ty[0] == "path" and ty[2] != "U53" else ""
-            text = "%d%s" % (v, suffix)
-            lits = [("i", v, suffix.lstrip("_"))]
+            text, init = "%d%s" % (v, suffix), ("i", v, suffix.lstrip("_"))
         elif r < 0.45:
-            text, lits = "-5", [("i", 5, "")]
+            text, init = "-5", None
             self.hit("edge-const-negative")
         elif r < 0.6:
-            text, lits = "1 + 2", [("i", 1, ""), ("i", 2, "")]
+            text, init = "1 + 2", None
             self.hit("edge-const-expr")
         elif r < 0.7:
-            text, lits = '"text"', [("s", "text")]
+            text, init = '"text"', ("s", "text")
             ty = ("ref", t_path("str"), False)
             self.hit("edge-const-str")
         elif r < 0.8:
-            text, lits = "OTHER", []
+            text, init = self.rng.choice(["OTHER", "f(3)", "(7)", "{ 1 }"]), None
             self.hit("edge-const-path")
         elif r < 0.9:
-            text, lits = "1.5", [("o", "1.5")]
+            text, init = "1.5", ("o", "1.5")
             ty = t_path("f32")
             self.hit("edge-const-float")
         else:
-            text, lits = "0x1F", [("i", 31, "")]
+            text, init = self.rng.choice([("0x1F", ("i", 31, "")), ("340282366920938463463374607431768211455", ("i", 2**128 - 1, "")),
+                                          ("1_000", ("i", 1000, ""))])
         if self.chance("p_edge") and self.rng.random() < 0.3:
             ty = self.rng.choice([t_path("Vec", [t_path("u8")]), t_path("Option", [t_path("u8")]), ("array", t_path("u8"), 2),
                                   t_path("Foo", [t_path("u8")]), t_path("u64")])
             self.hit("edge-const-type")
         return {"kind": "const", "attrs": self.item_attrs("const", scope, annotated), "ident": name.upper(), "ty": ty,
-                "expr_text": text, "lits": lits}
+                "expr_text": text, "init": init}
 
     def use(self, crates):
         cr = self.rng.choice(list(crates) + ["std", "serde", "crate", "super", "self"])
